@@ -120,6 +120,7 @@ class Ctx:
         self.assumptions = []
         self.trusted = []
         self.notes = []
+        self.harness_reduced = False
         self.evaluations = 0
         self.distinct = set()
         self.dist = {}
@@ -275,6 +276,15 @@ class Ctx:
             if os.path.exists(lock_src) and open(lock_src).read() != (open(lock_dst).read() if os.path.exists(lock_dst) else ""):
                 open(lock_dst, "w").write(open(lock_src).read())
             rc, out = sh(["cargo", "build", "--release", "--offline"], cwd=HARNESS_DIR, timeout=3600)
+            if rc != 0:
+                # the modes that implement a trait of the code under test may be what no longer compiles: build without them
+                # (their modes then answer `bad-mode`, which breaks the correspondences of the one check that uses them)
+                rc2, out2 = sh(["cargo", "build", "--release", "--offline", "--no-default-features"], cwd=HARNESS_DIR, timeout=3600)
+                if rc2 == 0:
+                    self.harness_reduced = True
+                    self.notes.append("harness built WITHOUT its own implementations of the parser-context trait (they no longer compile against /repo/src): "
+                                      + out[-600:])
+                    rc = 0
         ok = rc == 0
         self.oblige("tie:harness-builds-from-/repo/src", ok, out[-3000:] if not ok else "")
         return ok
